@@ -19,33 +19,57 @@
    them).  ShareDefaults = FALSE: the pinned tree, otelcol.unmarshal and the factories build fresh default
    objects for every load and every component.  ShareDefaults = TRUE: a variant that builds the defaults once
    per process (a shallow copy shares pointees, maps and backing arrays): TLC shows that Faithful fails for
-   it -- the history is what the sequences are generated for. *)
+   it -- the history is what the sequences are generated for.
+
+   REDACTION ("... and in the effective configuration handed to extensions (secrets redacted)"): rt/a also has
+   secret-typed settings (configopaque.String) in every container position the encoder distinguishes -- plain
+   field, pointer, slice, map value, struct in a map, struct in a slice, squashed embedded struct -- and, for
+   contrast, a plain string field and a map of plain strings written with the same kind of text.  Effective /
+   Redacted below; the check additionally searches the WHOLE marshalled effective configuration for every
+   written secret text. *)
 EXTENDS Naturals, Sequences, FiniteSets, TLC
 
-CONSTANTS MaxLoads, MaxWrites, Defects, ShareDefaults
+CONSTANTS MaxLoads, MaxWrites, Defects, ShareDefaults,
+          MapFastPath    \* TRUE: the encoder variant that copies map values of string KIND without the encode hook
 
 VARIABLES hist
 Comps == {"a", "b"}          \* the receivers rt/a and rt/b
 
-\* [s: setting, d: default, alts: values a document may write, g: reference group ("" = value typed)]
+\* [s: setting, d: default, alts: values a document may write, g: reference group ("" = value typed),
+\*  sec: secret typed (configopaque.String), pos: the container position the encoder meets it in, red: how a written value
+\*  must appear in the effective configuration]
+V(s, d, alts, g) == [s |-> s, d |-> d, alts |-> alts, g |-> g, sec |-> FALSE, pos |-> "", red |-> ""]
+S(s, d, alts, pos, red) == [s |-> s, d |-> d, alts |-> alts, g |-> "", sec |-> TRUE, pos |-> pos, red |-> red]
+Marker == "[REDACTED]"
+SecComps == {"a"}            \* the secret-typed (and the two contrasting plain) settings are written for rt/a only
 Table ==
-     { [s |-> "tl.level",        d |-> "info",    alts |-> {"debug", "error"}, g |-> ""],
-       [s |-> "tl.encoding",     d |-> "console", alts |-> {"json"},           g |-> ""],
-       [s |-> "tl.s.enabled",    d |-> "true",    alts |-> {"false"},          g |-> "tl.s"],
-       [s |-> "tl.s.initial",    d |-> "10",      alts |-> {"3"},              g |-> "tl.s"],
-       [s |-> "tl.s.thereafter", d |-> "100",     alts |-> {"7"},              g |-> "tl.s"],
-       [s |-> "tm.level",        d |-> "normal",  alts |-> {"detailed", "basic"}, g |-> ""] }
-  \cup UNION { { [s |-> c \o ".endpoint",    d |-> "default:1", alts |-> {"h:9"},  g |-> ""],
-                 [s |-> c \o ".limit",       d |-> "7",         alts |-> {"3"},    g |-> ""],
-                 [s |-> c \o ".nested.name", d |-> "dflt",      alts |-> {"n1"},   g |-> ""],
-                 [s |-> c \o ".nested.flag", d |-> "false",     alts |-> {"true"}, g |-> ""],
-                 [s |-> c \o ".opt.size",    d |-> "5",         alts |-> {"9"},    g |-> c \o ".opt"],
-                 [s |-> c \o ".opt.mode",    d |-> "m0",        alts |-> {"m1"},   g |-> c \o ".opt"],
-                 [s |-> c \o ".labels.env",  d |-> "dev",       alts |-> {"prod"}, g |-> c \o ".labels"],
-                 [s |-> c \o ".labels.team", d |-> "<absent>",  alts |-> {"x"},    g |-> c \o ".labels"],
-                 [s |-> c \o ".hosts",       d |-> "h0,hx",     alts |-> {"h1", "", "h1,h2,h3"}, g |-> c \o ".hosts"] } : c \in Comps }
+     { V("tl.level", "info", {"debug", "error"}, ""),
+       V("tl.encoding", "console", {"json"}, ""),
+       V("tl.s.enabled", "true", {"false"}, "tl.s"),
+       V("tl.s.initial", "10", {"3"}, "tl.s"),
+       V("tl.s.thereafter", "100", {"7"}, "tl.s"),
+       V("tm.level", "normal", {"detailed", "basic"}, "") }
+  \cup UNION { { V(c \o ".endpoint", "default:1", {"h:9"}, ""),
+                 V(c \o ".limit", "7", {"3"}, ""),
+                 V(c \o ".nested.name", "dflt", {"n1"}, ""),
+                 V(c \o ".nested.flag", "false", {"true"}, ""),
+                 V(c \o ".opt.size", "5", {"9"}, c \o ".opt"),
+                 V(c \o ".opt.mode", "m0", {"m1"}, c \o ".opt"),
+                 V(c \o ".labels.env", "dev", {"prod"}, c \o ".labels"),
+                 V(c \o ".labels.team", "<absent>", {"x"}, c \o ".labels"),
+                 V(c \o ".hosts", "h0,hx", {"h1", "", "h1,h2,h3"}, c \o ".hosts") } : c \in Comps }
+  \cup UNION { { S(c \o ".sec.plain",   "",         {"S3CR3T-plain"},          "field",           Marker),
+                 S(c \o ".sec.ptr",     "<absent>", {"S3CR3T-ptr"},            "pointer",         Marker),
+                 S(c \o ".sec.list",    "",         {"S3CR3T-l1,S3CR3T-l2"},   "slice",           "[REDACTED],[REDACTED]"),
+                 S(c \o ".sec.map.k",   "<absent>", {"S3CR3T-map"},            "mapvalue",        Marker),
+                 S(c \o ".sec.rowmap",  "<absent>", {"S3CR3T-rowmap"},         "struct-in-map",   Marker),
+                 S(c \o ".sec.rowlist", "",         {"S3CR3T-rowlist"},        "struct-in-slice", Marker),
+                 S(c \o ".sec.squash",  "",         {"S3CR3T-squash"},         "squash",          Marker),
+                 V(c \o ".pub.plain",   "",         {"S3CR3T-pub"},    ""),           \* same kind of text, NOT secret typed
+                 V(c \o ".pub.map.k",   "<absent>", {"S3CR3T-pubmap"}, "") } : c \in SecComps }
 Names      == {r.s : r \in Table}
-Row(s)     == CHOOSE r \in Table : r.s = s
+RowF       == [n \in Names |-> CHOOSE r \in Table : r.s = n]     \* (constant: evaluated once)
+Row(s)     == RowF[s]
 Default(s) == Row(s).d
 Group(s)   == Row(s).g
 
@@ -78,4 +102,19 @@ ImplTyped(i) ==
   IN Overlay(base, hist[i].w)
 
 Faithful == \A i \in DOMAIN hist : ImplTyped(i) = Typed(hist[i])
+
+-----------------------------------------------------------------------------
+(* the EFFECTIVE configuration (confmap.Marshal of the typed configuration: what extensions are handed) *)
+Written(doc, s) == \E x \in doc.w : x[1] = s
+\* statement level: "secrets redacted": a written secret shows the redaction marker, everything else the typed value.
+\* How an UNWRITTEN (empty) secret is rendered is not documented by configopaque: left open.
+Effective(doc) == [s \in Names |-> IF Row(s).sec THEN (IF Written(doc, s) THEN Row(s).red ELSE "<open>") ELSE Typed(doc)[s]]
+\* implementation shaped: the reflective encoder applies the TextMarshaler hook to every value it meets, whatever
+\* container it sits in -- unless (MapFastPath) it copies the values of a map of string kind directly
+ImplEffective(i) == [s \in Names |->
+     IF ~Row(s).sec THEN ImplTyped(i)[s]
+     ELSE IF MapFastPath /\ Row(s).pos = "mapvalue" THEN ImplTyped(i)[s]
+     ELSE IF Written(hist[i], s) THEN Row(s).red ELSE "<open>"]
+Redacted == \A i \in DOMAIN hist : \A s \in Names :
+               Effective(hist[i])[s] = "<open>" \/ ImplEffective(i)[s] = Effective(hist[i])[s]
 =============================================================================
